@@ -1815,15 +1815,17 @@ package rtcp
 //@   ensures input: inputUnchanged
 //@   ensures repeatable: repeatable
 
-//@ func lemmaCompound(c CompoundPacket) (verr error, name string, cerr error, merr error, uerr error)
+//@ func lemmaCompound(c CompoundPacket) (verr error, name string, cerr error, merr error, uerr error, d CompoundPacket, out []byte)
 //@   lemma
 //@   trusted
-//@   bounded[C11] genCompound
+//@   bounded[C11,C02,C05] genCompound
 //@   ensures validate: (verr == nil) <==> specCompoundOK(c)
 //@   ensures cname: verr == nil ==> cerr == nil && name == specCompoundCNAME(c)
 //@   ensures marshal: (merr == nil) <==> (verr == nil)
 //@   ensures unmarshal: merr == nil ==> uerr == nil
 //@   ensures dest: verr == nil ==> seqEq(c.DestinationSSRC(), c[0].DestinationSSRC())
+//@   ensures same: merr == nil && uerr == nil ==> specSameWire(c, d)
+//@   ensures size: merr == nil ==> len(out) == c.MarshalSize() && len(out) == specSumSizes(c) && len(out)%4 == 0
 
 //@ func lemmaDestSSRCStable(ps []Packet) (same bool, err error, err2 error)
 //@   lemma
